@@ -8,6 +8,7 @@ import (
 	"errors"
 	"fmt"
 	"os"
+	"path/filepath"
 	"time"
 
 	"io"
@@ -248,6 +249,9 @@ func Gen(r *vk.Run, n int) error {
 	for k := 0; k < budget/20; k++ {
 		caseHdr(r, vk.SmallBiased(r.Rng, 110+r.Rng.Intn(60)), "random")
 	}
+	// --- appendable metadata (modelled) and the un-modelled parsers (probes: falsifier only)
+	genAppMd(r, budget/3)
+	genProbes(r, budget/30)
 	// --- ReplicateTx on real stores
 	return genRepl(r, budget/3)
 }
@@ -313,23 +317,57 @@ func genRepl(r *vk.Run, budget int) error {
 	}
 	holder := store.NewTx(primary.MaxTxEntries(), primary.MaxKeyLen())
 	per := budget / ntx
+	genuine := make([][]byte, ntx+1)
 	for id := uint64(1); id <= ntx; id++ {
 		etx, err := primary.ExportTx(id, false, false, holder)
 		if err != nil {
 			return err
 		}
+		genuine[id] = vk.Clone(etx)
+	}
+	// rebuild gives a fresh replica holding exactly the genuine transactions 1..upto: used whenever
+	// an altered export was accepted (header fields no check of ReplicateTx covers — timestamp,
+	// metadata: C07's known finding), so that the replica stays in lock-step with the primary
+	nrep := 0
+	rebuild := func(upto uint64) error {
+		replica.Close()
+		nrep++
+		d := filepath.Join(rdir, fmt.Sprintf("r%d", nrep))
+		var err error
+		replica, err = store.Open(d, opts)
+		if err != nil {
+			return err
+		}
+		for id := uint64(1); id <= upto; id++ {
+			if _, err := replica.ReplicateTx(ctx, genuine[id], false, false); err != nil {
+				return fmt.Errorf("rebuilding replica: tx %d: %w", id, err)
+			}
+		}
+		return nil
+	}
+	for id := uint64(1); id <= ntx; id++ {
+		etx := genuine[id]
 		muts := vk.Mutations(r.Rng, etx, per)
 		// dedicated framing attacks on the trailer and on the first entry's metadata/value lengths
 		muts = append(muts, etx[:len(etx)-3], etx[:len(etx)-2], etx[:len(etx)-1],
 			append(vk.Clone(etx[:len(etx)-3]), 0, 0), append(vk.Clone(etx[:len(etx)-3]), 0),
 			append(vk.Clone(etx[:len(etx)-3]), 0, 2, 1, 1), append(vk.Clone(etx[:len(etx)-3]), 0, 1, 2))
-		for _, m := range muts {
-			if len(m) == len(etx) && len(m) >= 52 {
-				// the header timestamp is covered by no check of ReplicateTx (C07's known finding);
-				// keep it genuine here so that the replica stays in lock-step with the primary
-				copy(m[44:52], etx[44:52])
+		fms := fieldMutations(etx)
+		if id > 2 { // full boundary sweep on two transactions, a sample on the others
+			var sample [][]byte
+			for k := int(id) % 7; k < len(fms); k += 7 {
+				sample = append(sample, fms[k])
 			}
+			fms = sample
+		}
+		muts = append(muts, fms...)
+		for _, m := range muts {
 			replCase(r, replica, ctx, m, "mutated")
+			if replica.LastPrecommittedTxID() != id-1 {
+				if err := rebuild(id - 1); err != nil {
+					return err
+				}
+			}
 		}
 		replCase(r, replica, ctx, etx, "valid") // the genuine tx advances the replica
 		if replica.LastCommittedTxID() != id {
@@ -344,9 +382,13 @@ func genRepl(r *vk.Run, budget int) error {
 }
 
 func replCase(r *vk.Run, replica *store.ImmuStore, ctx context.Context, in []byte, bucket string) {
+	timeout := 250 * time.Millisecond
+	if bucket == "valid" || bucket == "duplicate" {
+		timeout = 60 * time.Second // genuine transactions must get through even on a loaded machine
+	}
 	in = vk.Exact(in)
 	before := stateOf(replica)
-	cctx, cancel := context.WithTimeout(ctx, 250*time.Millisecond)
+	cctx, cancel := context.WithTimeout(ctx, timeout)
 	p, err := outcome(func() error {
 		_, e := replica.ReplicateTx(cctx, in, false, false)
 		return e
@@ -375,6 +417,9 @@ func Replay(r *vk.Run, c map[string]any) error {
 		caseKvMd(r, in, "replay")
 	case "hdr":
 		caseHdr(r, in, "replay")
+	case "appmd":
+		key, _ := hex.DecodeString(c["key"].(string))
+		caseAppMd(r, in, key, "replay")
 	case "repl":
 		dir, err := os.MkdirTemp("", "vh-c16-replay")
 		if err != nil {
@@ -390,4 +435,84 @@ func Replay(r *vk.Run, c map[string]any) error {
 		replCase(r, st, context.Background(), in, "replay")
 	}
 	return nil
+}
+
+// lenField is a length/count field of the export wire format: offset and width in bytes.
+type lenField struct{ off, width int }
+
+// exportLenFields locates every length field of a GENUINE exported transaction:
+// hdrLen | header | per entry: kLen key mdLen md vLen value | tLen trailer.
+func exportLenFields(etx []byte) []lenField {
+	var fs []lenField
+	if len(etx) < 4 {
+		return fs
+	}
+	hl := int(binary.BigEndian.Uint32(etx))
+	fs = append(fs, lenField{0, 4})
+	if len(etx) < 4+hl {
+		return fs
+	}
+	h := &store.TxHeader{}
+	if h.ReadFrom(etx[4:4+hl]) != nil {
+		return fs
+	}
+	if h.Version == 1 {
+		fs = append(fs, lenField{4 + 50, 2}) // tx metadata length inside the header
+	}
+	i := 4 + hl
+	for e := 0; e < h.NEntries && i+2 <= len(etx); e++ {
+		fs = append(fs, lenField{i, 2})
+		i += 2 + int(binary.BigEndian.Uint16(etx[i:]))
+		if i+2 > len(etx) {
+			return fs
+		}
+		fs = append(fs, lenField{i, 2})
+		i += 2 + int(binary.BigEndian.Uint16(etx[i:]))
+		if i+4 > len(etx) {
+			return fs
+		}
+		fs = append(fs, lenField{i, 4})
+		i += 4 + int(binary.BigEndian.Uint32(etx[i:]))
+	}
+	if i+2 <= len(etx) {
+		fs = append(fs, lenField{i, 2})
+	}
+	return fs
+}
+
+// fieldMutations: for every length field, values that make its payload end exactly at / just
+// before / just after the end of the message, and messages truncated right behind the field or a
+// few bytes into its payload (with the length set to what remains, one less, one more).
+func fieldMutations(etx []byte) [][]byte {
+	var out [][]byte
+	put := func(b []byte, f lenField, v int) {
+		if v < 0 {
+			return
+		}
+		if f.width == 2 {
+			binary.BigEndian.PutUint16(b[f.off:], uint16(v))
+		} else {
+			binary.BigEndian.PutUint32(b[f.off:], uint32(v))
+		}
+	}
+	for _, f := range exportLenFields(etx) {
+		rem := len(etx) - (f.off + f.width)
+		for _, v := range []int{rem, rem - 1, rem + 1, rem - 2, rem - 3, rem - 4, rem - 5, rem - 6, rem - 7, 0, 1, 65535} {
+			c := vk.Clone(etx)
+			put(c, f, v)
+			out = append(out, c)
+		}
+		for _, keep := range []int{0, 1, 2, 3, 4, 5, 6, 7} {
+			end := f.off + f.width + keep
+			if end > len(etx) {
+				break
+			}
+			for _, d := range []int{0, -1, 1, -2, 2} {
+				c := vk.Clone(etx[:end])
+				put(c, f, keep+d)
+				out = append(out, c)
+			}
+		}
+	}
+	return out
 }
